@@ -98,3 +98,42 @@ func RegisterField(t *rapid.T, name string, lo, hi int) modbus.Field {
 	}
 	return f
 }
+
+// NearDuplicate returns a copy of f with exactly one attribute changed slightly (same address): the kind of pair a
+// "these two are the same" shortcut would confuse.
+func NearDuplicate(t *rapid.T, f modbus.Field, name string) modbus.Field {
+	g := f
+	g.Name = name
+	switch rapid.IntRange(0, 5).Draw(t, "neardup") {
+	case 0:
+		if g.Type == modbus.FieldTypeString {
+			if g.Length%2 == 1 {
+				g.Length++
+			} else if g.Length > 1 {
+				g.Length--
+			}
+		} else {
+			g.Bit = (g.Bit + 1) % 16
+		}
+	case 1:
+		g.FromHighByte = !g.FromHighByte
+	case 2:
+		g.ByteOrder = rapid.SampledFrom(Orders).Draw(t, "neardup_order")
+	case 3:
+		// sibling type of the same width
+		sib := map[modbus.FieldType]modbus.FieldType{modbus.FieldTypeUint16: modbus.FieldTypeInt16, modbus.FieldTypeInt16: modbus.FieldTypeUint16,
+			modbus.FieldTypeUint32: modbus.FieldTypeFloat32, modbus.FieldTypeInt32: modbus.FieldTypeUint32, modbus.FieldTypeFloat32: modbus.FieldTypeInt32,
+			modbus.FieldTypeUint64: modbus.FieldTypeFloat64, modbus.FieldTypeInt64: modbus.FieldTypeUint64, modbus.FieldTypeFloat64: modbus.FieldTypeInt64,
+			modbus.FieldTypeByte: modbus.FieldTypeInt8, modbus.FieldTypeUint8: modbus.FieldTypeInt8, modbus.FieldTypeInt8: modbus.FieldTypeUint8, modbus.FieldTypeBit: modbus.FieldTypeUint16}
+		if s, ok := sib[g.Type]; ok {
+			g.Type = s
+		}
+	case 4:
+		g.Bit = (g.Bit + 8) % 16
+	case 5:
+		if g.Type == modbus.FieldTypeString && g.Length < 250 {
+			g.Length += 2
+		}
+	}
+	return g
+}
